@@ -303,13 +303,13 @@ func (g *gen) encode(f *Fn, viaOpt bool) {
 	for i, p := range f.Params {
 		np[i] = p.K.Name != "" || p.Optional || p.K.Group != ""
 	}
-	f.PEnc = g.randEnc(len(f.Params), np, 3, true)
+	f.PEnc = g.randEnc(len(f.Params), np, 4, true)
 	if !viaOpt {
 		nr := make([]bool, len(f.Results))
 		for i, r := range f.Results {
 			nr[i] = r.K.Name != "" || r.K.Group != "" || r.Whole
 		}
-		f.REnc = g.randEnc(len(f.Results), nr, 2, false)
+		f.REnc = g.randEnc(len(f.Results), nr, 4, false)
 	}
 }
 
